@@ -46,6 +46,34 @@ func TestC11(t *testing.T) {
 			panic(err)
 		}
 	}
+	// half of the histories start with the same design document in every collection, a document
+	// under the same key in each, and every view indexed: what one collection's index holds is then
+	// one wrong conjunct away from another collection's query
+	pr.Prefix = func(rt *rapid.T, r *Run) []Op {
+		if !chance(rt, 50, "c11.samedd") {
+			return nil
+		}
+		spec := ViewSpec{Emits: []string{"k|id"}}
+		if chance(rt, 40, "c11.ddgen") {
+			spec = genViewSpec(rt)
+		}
+		var ops []Op
+		for ci := range r.W.Cfg.Colls {
+			if r.W.Model.Colls[ci].Dropped {
+				continue
+			}
+			ops = append(ops, Op{K: "PutDDoc", C: ci, View: &ViewOp{DDoc: ddocNames[0], Specs: map[string]ViewSpec{viewNames[0]: spec}}})
+			for _, k := range keys[:2] {
+				ops = append(ops, Op{K: "Set", C: ci, Key: k, Body: genViewBody(rt), Exp: ExpSpec{Kind: "zero"}, NilOpts: true})
+			}
+		}
+		for ci := range r.W.Cfg.Colls {
+			if !r.W.Model.Colls[ci].Dropped {
+				ops = append(ops, Op{K: "View", C: ci, View: &ViewOp{DDoc: ddocNames[0], Name: viewNames[0], Q: &ViewQuery{}}})
+			}
+		}
+		return ops
+	}
 	pr.Extra = append(pr.Extra,
 		ExtraAction{Name: "Query", Weight: 4, Gen: genQuery},
 		ExtraAction{Name: "DropColl", Weight: 2, Gen: genDropColl},
